@@ -5,6 +5,7 @@ and XC under the four option combinations; oracle = the rule text on integer com
 import datetime
 from datetime import date, timedelta
 from vlib import common
+from vlib import orderpass
 from vlib.common import Report, Violation, HarnessError, Acc, pmap, merge
 
 PID = 'C13'
@@ -204,6 +205,16 @@ def run(tier):
     c['exhaustive'] = True
     rep.assumptions += ['29 February birthdays count on 28 February in common years', 'XC/ROAD cut-off = the 31 August on or before the meeting',
                         'monotonicity is compared between consecutive enumerated birth dates (not necessarily adjacent days in the quick tier)']
+    import datetime as _dt
+    A = 'athlib.uka.agegroups:calc_uka_age_group'
+    oc = []
+    for cat in ('TF', 'XC', 'ROAD'):
+        for b, m in ((_dt.date(2003, 10, 15), _dt.date(2014, 10, 15)), (_dt.date(1980, 2, 29), _dt.date(2015, 2, 28)), (_dt.date(1966, 3, 21), _dt.date(2015, 9, 1)),
+                     (_dt.date(2000, 8, 31), _dt.date(2015, 12, 31)), (_dt.date(2007, 1, 1), _dt.date(2016, 6, 1))):
+            oc.append((A, (b, m, cat)))
+            oc.append((A, (b, m, cat), dict(vets=False, underage=True)))
+    oc += [(A, ('1990-05-01', _dt.date(2016, 7, 1), 'TF')), (A, ('1990-05-01', '2016-07-01', 'XC')), (A, (_dt.date(1990, 5, 1), _dt.date(2016, 7, 1), 'nonsense'))]
+    orderpass.part(rep, oc, 'age-group call-order pass')
     return rep.finish()
 
 
